@@ -187,6 +187,11 @@ func TestWorker(t *testing.T) {
 		return simrt.Execute(t, cfg, strings.ToLower(p.ID), p.Run)
 	}
 
+	// Warm-up: one throw-away run so that one-time initialisations (sync.Once, caches, lazily
+	// started runtime helpers) have happened before any run whose digest matters; a cold and a
+	// warm process then execute a seed identically.
+	_ = exec(simrt.Config{Seed: 0x5eed, MaxSteps: 20000})
+
 	switch job.Mode {
 	case "replay":
 		r := job.Replay
